@@ -632,7 +632,13 @@ Fixpoint sem (n : nat) (g : G) (ctx : env) (p : nat) (a : reg) {struct n} : opti
            | (Some p1, a1) => (Some (VList (map VTok (val_toks (cval ctx))), p1, []), a1)
            | (None, a1) => (None, a1)
            end
-  | Memo _ x => run x ctx p a                    (* memoization is invisible *)
+  | Memo _ x =>
+      (* Memoized::go without its table: the parser runs on an empty register and its pending error is merged back.
+         (For parsers without recover_with this is running it directly: Proofs/Shelter.v, shelter_eq.) *)
+      match run x ctx p None with
+      | Some (o, new) => Some (o, join a new)
+      | None => None
+      end
   | Rec x => run x (mkEnv (cval ctx) (x :: crec ctx)) p a
   | Var k =>
       match nth_error (crec ctx) k with
